@@ -161,10 +161,10 @@ Qed.
 Lemma get_app_new (h : list audit) x : get (h ++ [x]) (List.length h) = x.
 Proof. unfold get. rewrite app_nth2 by lia. rewrite Nat.sub_diag. reflexivity. Qed.
 
-Lemma frame_inv c is_wf d name files shell body s0 :
+Lemma frame_inv c is_wf d name files shell cr body s0 :
   c_sharing c = false -> c_prov c = true ->
   (forall s, Inv (c_md c) s (body s)) ->
-  Inv (c_md c) s0 (frame c is_wf d name files shell body s0).
+  Inv (c_md c) s0 (frame c is_wf d name files shell cr body s0).
 Proof.
   intros Sh P Hbody. unfold frame, alloc. rewrite Sh. cbn [andb].
   set (h0 := heap s0). set (r := List.length h0). set (h1 := h0 ++ [get h0 0]).
@@ -178,53 +178,64 @@ Proof.
   destruct (start_audit c r d s1) as [s2 m_start] eqn:E2.
   destruct (start_audit_spec c r d s1 P L1 _ _ E2) as (O2 & N2 & C2 & A2 & Mo2 & Ms2).
   assert (L2 : r < List.length (heap s2)) by (destruct O2 as [O2 _]; rewrite O2; assumption).
-  set (tk := if c_prov c && negb (c_async c && is_wf) then audit_task c r name files shell s2 else (s2, [])).
-  destruct tk as [s3 m_task] eqn:E3.
-  assert (T3 : heap s3 = heap s2 /\ next s2 <= next s3 /\ cwd s3 = cwd s2 /\ starts m_task = [] /\ ends m_task = []).
-  { unfold tk in E3. destruct (c_prov c && negb (c_async c && is_wf)).
-    - eapply audit_task_spec; eassumption.
-    - inversion E3; subst. repeat split; auto. }
-  destruct T3 as (H3 & N3 & C3 & S3 & En3).
-  assert (L3 : r < List.length (heap s3)) by (rewrite H3; assumption).
-  destruct (monitor c r s3) as [s4 m_mon] eqn:E4.
-  destruct (monitor_spec c r s3 L3 _ _ E4) as (O4 & N4 & C4 & A4 & Mo4 & S4 & En4).
-  specialize (Hbody s4). destruct (body s4) as [[[s5 m_body] r_body] err] eqn:E5.
-  cbn in Hbody. destruct Hbody as (Pr5 & N5 & C5 & I5 & ND5 & PS5 & PR5).
-  assert (L4 : r < List.length (heap s4)) by (destruct O4 as [O4 _]; rewrite O4; assumption).
-  assert (G5 : get (heap s5) r = get (heap s4) r) by (apply Pr5; assumption).
+  destruct (monitor c r s2) as [s3 m_mon] eqn:E3.
+  destruct (monitor_spec c r s2 L2 _ _ E3) as (O3 & N3 & C3 & A3 & Mo3 & S3 & En3).
+  assert (L3 : r < List.length (heap s3)) by (destruct O3 as [O3 _]; rewrite O3; assumption).
+  (* the part between monitor() and the finally block, whatever it is, behaves like a body started in s3 *)
+  set (inner := if c_prov c && negb (c_async c && is_wf) && cr then (s3, [], [], true)
+                else let '(s4, m_task) := if c_prov c && negb (c_async c && is_wf)
+                                          then audit_task c r name files shell s3 else (s3, []) in
+                     let '(s5, m_body, r_body, err) := body s4 in (s5, m_task ++ m_body, r_body, err)).
+  assert (Hinner : Inv (c_md c) s3 inner).
+  { unfold inner. destruct (c_prov c && negb (c_async c && is_wf) && cr); [apply Inv_nil|].
+    set (tk := if c_prov c && negb (c_async c && is_wf) then audit_task c r name files shell s3 else (s3, [])).
+    destruct tk as [s4 m_task] eqn:E4.
+    assert (T4 : heap s4 = heap s3 /\ next s3 <= next s4 /\ cwd s4 = cwd s3 /\ starts m_task = [] /\ ends m_task = []).
+    { unfold tk in E4. destruct (c_prov c && negb (c_async c && is_wf)).
+      - eapply audit_task_spec; eassumption.
+      - inversion E4; subst. repeat split; auto. }
+    destruct T4 as (H4 & N4 & C4 & S4 & En4).
+    specialize (Hbody s4). destruct (body s4) as [[[s5 m_body] r_body] err].
+    cbn in Hbody. destruct Hbody as (Pr5 & N5 & C5 & I5 & ND5 & PS5 & PR5).
+    cbn. unfold ids_in. rewrite !starts_app, !ends_app, S4, En4. cbn [app].
+    split; [rewrite <- H4; assumption|]. split; [lia|]. split; [congruence|].
+    split; [intros p Hp; specialize (I5 p Hp); lia|]. repeat split; assumption. }
+  destruct inner as [[[s5 m_inner] r_body] err].
+  cbn in Hinner. destruct Hinner as (Pr5 & N5 & C5 & I5 & ND5 & PS5 & PR5).
+  assert (G5 : get (heap s5) r = get (heap s3) r) by (apply Pr5; assumption).
   assert (L5 : r < List.length (heap s5)) by (destruct Pr5 as [Pr5 _]; lia).
   assert (Aid : a_aid (get (heap s5) r) = next s0).
-  { rewrite G5, A4, H3, A2. reflexivity. }
+  { rewrite G5, A3, A2. reflexivity. }
   assert (Mon : a_mon (get (heap s5) r) = c_res c).
-  { rewrite G5, Mo4, H3, Mo2. unfold s1, with_heap. cbn [heap]. rewrite M0. apply orb_false_r. }
+  { rewrite G5, Mo3, Mo2. unfold s1, with_heap. cbn [heap]. rewrite M0. apply orb_false_r. }
   destruct (finalize_spec c r err s5 P L5 Mon) as (s6 & m_fin & E6 & O6 & N6 & C6 & S6 & En6).
   rewrite E6. cbn [heap next cwd].
   assert (Hs1 : next s1 = next s0 /\ cwd s1 = cwd s0 /\ heap s1 = h1) by (unfold s1, with_heap; auto).
   destruct Hs1 as (Ns1 & Cs1 & Hs1).
   assert (PL : place c s5 = home (c_md c) d).
-  { unfold place, home. destruct (c_md c); [reflexivity|]. rewrite C5, C4, C3, C2. reflexivity. }
+  { unfold place, home. destruct (c_md c); [reflexivity|]. rewrite C5, C3, C2. reflexivity. }
   split; [|split; [|split; [|split; [|split; [|split]]]]]; cbn [heap next cwd].
   - (* heap *)
     assert (Lr : List.length (heap s0) <= r) by (unfold r, h0; apply Nat.le_refl).
     apply (only_pres _ r _ _ Lr O6).
     eapply pres_trans; [| exact Pr5].
-    apply (only_pres _ r _ _ Lr O4). rewrite H3.
+    apply (only_pres _ r _ _ Lr O3).
     apply (only_pres _ r _ _ Lr O2). rewrite Hs1. apply pres_app.
   - lia.
   - reflexivity.
   - (* ids *)
-    intros p. rewrite !starts_app, S3, S4, S6, Ms2. cbn [starts app]. rewrite app_nil_r.
+    intros p. rewrite !starts_app, S3, S6, Ms2. cbn [starts app]. rewrite app_nil_r.
     intros [<-|Hin]; cbn [snd]; [lia|]. specialize (I5 p Hin). lia.
   - (* NoDup *)
-    rewrite !starts_app, S3, S4, S6, Ms2. cbn [starts app map snd]. rewrite app_nil_r.
+    rewrite !starts_app, S3, S6, Ms2. cbn [starts app map snd]. rewrite app_nil_r.
     constructor; [|assumption]. rewrite in_map_iff. intros (p & Hp & Hin).
     specialize (I5 p Hin). lia.
   - (* started = ended *)
-    rewrite !starts_app, !ends_app, S3, S4, S6, Ms2, En3, En4, En6. cbn [starts ends app].
+    rewrite !starts_app, !ends_app, S3, S6, Ms2, En3, En6. cbn [starts ends app].
     rewrite app_nil_r, map_app. cbn [map fst]. rewrite Aid, PL, Ns1.
     apply Permutation_cons_app. rewrite app_nil_r. assumption.
   - (* ends = results *)
-    rewrite !ends_app, En3, En4, En6, Ms2. cbn [ends app]. rewrite !map_app. cbn [map fst snd].
+    rewrite !ends_app, En3, En6, Ms2. cbn [ends app]. rewrite !map_app. cbn [map fst snd].
     rewrite PL. apply Permutation_app; [assumption|]. apply Permutation_refl.
 Qed.
 
@@ -249,17 +260,17 @@ Lemma Inv_flag md s s' ms rs e e' : Inv md s (s', ms, rs, e) -> Inv md s (s', ms
 Proof. cbn. auto. Qed.
 
 Lemma task_ind2 (P : task -> Prop) :
-  (forall d n f sh fl, P (Leaf d n f sh fl)) ->
+  (forall d n f sh fl cr, P (Leaf d n f sh fl cr)) ->
   (forall d n nodes fl, Forall P nodes -> P (Wf d n nodes fl)) ->
   forall t, P t.
 Proof.
-  intros HL HW. fix IH 1. intros [d n f sh fl | d n nodes fl]; [apply HL|].
+  intros HL HW. fix IH 1. intros [d n f sh fl cr | d n nodes fl]; [apply HL|].
   apply HW. induction nodes as [|t r IHr]; constructor; [apply IH|assumption].
 Qed.
 
 Lemma run_job_wf c d name nodes fails :
   run_job c (Wf d name nodes fails) =
-  frame c true d name [] false
+  frame c true d name [] false false
     (fun s => let '(s', ms, rs, e) := run_nodes c nodes s in (s', ms, rs, e || fails)).
 Proof. reflexivity. Qed.
 
@@ -278,7 +289,7 @@ Lemma run_job_inv c :
   c_sharing c = false -> c_prov c = true ->
   forall t s, Inv (c_md c) s (run_job c t s).
 Proof.
-  intros Sh P. induction t as [d n f sh fl | d n nodes fl IH] using task_ind2; intros s.
+  intros Sh P. induction t as [d n f sh fl cr | d n nodes fl IH] using task_ind2; intros s.
   - cbn [run_job]. apply frame_inv; auto. intros s'. apply Inv_nil.
   - rewrite run_job_wf. apply frame_inv; auto. intros s'.
     pose proof (run_nodes_inv c nodes IH s') as H.
@@ -322,7 +333,7 @@ Qed.
 Lemma no_prov_silent c : c_prov c = false ->
   forall t s, let '(_, ms, _, _) := run_job c t s in ms = [].
 Proof.
-  intros P. induction t as [d n f sh fl | d n nodes fl IH] using task_ind2; intros s.
+  intros P. induction t as [d n f sh fl cr | d n nodes fl IH] using task_ind2; intros s.
   - cbn [run_job]. unfold frame, start_audit, monitor, finalize_audit. rewrite P.
     destruct (alloc c false (heap s)) as [r h1]. destruct (a_mon (get h1 r)); [reflexivity|].
     rewrite andb_false_r. cbn [andb].
@@ -407,7 +418,7 @@ Proof.
 Qed.
 
 (* ------------------------------------------------------------------ what sharing the Audit object did *)
-Definition wf2 : task := Wf 1 "main" [Leaf 2 "n1" [] false false; Leaf 3 "n2" [] false false] false.
+Definition wf2 : task := Wf 1 "main" [Leaf 2 "n1" [] false false false; Leaf 3 "n2" [] false false false] false.
 
 Lemma shared_audit_breaks_nested :
   forall md, In md [None; Some 0] ->
